@@ -10,7 +10,7 @@ from . import common, store
 
 common.use_repo()
 RX = {"alpha": ["alpha", "al+pha", "^alpha", "alph"], "beta": ["beta", "b.ta", "beta$", "eta"], "any": [""], "dot": ["."], "never": ["gamma", "^lpha", "ALPHA"]}
-VALS = {"v1": "alpha", "v2": "beta", "v12": "alpha beta", "e": "", "L1": ["a", "b"], "L0": [], "L2": ["alpha"], "null": None, "i3": 3}
+VALS = {"v1": "alpha", "v2": "beta", "v12": "alpha beta", "e": "", "L1": ["a", "b"], "L0": [], "L2": ["alpha"], "null": None, "i3": 3, "im1": -1, "im2": -2, "L3": [0, -1], "L4": [0, -2]}
 KEYS = ["k1", "k2", "k3"]
 
 
@@ -26,7 +26,7 @@ class Cg:
         self.c = store.Concretiser(rnd, scales=(1, 1000, 43200000))      # the last: 12 h per tick, durations of several days
 
     def mk(self, lst, Event):
-        return [Event(timestamp=self.c.dt(e["ts"]), duration=self.c.td(e["dur"]), data={k: copy.deepcopy(VALS[v]) for k, v in e["data"].items()}) for e in lst]
+        return [Event(id=(None if e.get("id", -1) == -1 else e["id"]), timestamp=self.c.dt(e["ts"]), duration=self.c.td(e["dur"]), data={k: copy.deepcopy(VALS[v]) for k, v in e["data"].items()}) for e in lst]
 
     def pdata(self, d, skip=()):
         out = {"_": "_"}
@@ -36,20 +36,21 @@ class Cg:
         return out
 
     def pev(self, e):
-        return {"ts": self.c.tick(e.timestamp), "dur": self.c.dur(e.duration), "data": self.pdata(e.data)}
+        return {"id": e.id if isinstance(e.id, int) else -1, "ts": self.c.tick(e.timestamp), "dur": self.c.dur(e.duration), "data": self.pdata(e.data)}
 
     def proj(self, evs):
         return [self.pev(e) for e in evs]
 
 
-def rand_events(rnd, n, keys=KEYS, vals=("v1", "v2", "L1", "null", "L0", "L2", "v1")):
+def rand_events(rnd, n, keys=KEYS, vals=("v1", "v2", "L1", "null", "L0", "L2", "v1", "im1", "im2", "i3", "L3", "L4")):
     out = []
     for _ in range(n):
         d = {}
         for k in keys:
             if rnd.random() < 0.6:
                 d[k] = rnd.choice(vals)
-        out.append({"ts": rnd.randrange(0, 6), "dur": rnd.choice([0, 1, 1, 2, 5]), "data": d})
+        # ids: events read from a bucket carry one, freshly built events do not; a list may mix both
+        out.append({"id": rnd.choice([-1, -1, 1, 2, 7]), "ts": rnd.randrange(0, 6), "dur": rnd.choice([0, 1, 1, 2, 5]), "data": d})
     if out and rnd.random() < 0.3:
         out.append(copy.deepcopy(rnd.choice(out)))      # duplicates
     return out
@@ -76,7 +77,7 @@ def run_cases(args):
     rnd = random.Random(seed)
     cg = Cg(rnd)
     tr = []
-    for c in cases:
+    def one_case(c):
         op = c[0]
         inp = cg.mk(c[1], Event)
         pin = cg.proj(inp)
@@ -112,4 +113,10 @@ def run_cases(args):
         elif op == "regex":
             out = filter_keyvals_regex(inp, c[2], c[4])
             tr.append({"op": op, "inp": pin, "key": c[2], "rx": c[3], "out": cg.proj(out), "inp2": cg.proj(inp)})
+
+    for c in cases:
+        try:
+            one_case(c)
+        except Exception as e:      # no input of these grids makes the unchanged transforms raise
+            tr.append({"op": "raised", "fn": c[0], "exc": type(e).__name__, "inp": cg.proj(cg.mk(c[1], Event))})
     return tr
